@@ -38,7 +38,7 @@ func init() {
 	}})
 }
 
-var c15Args = []string{"Hello", "Verify", "MailFrom", "RcptTo", "EnvelopeID", "Auth", "ORcptRFC822", "ORcptUTF8", "Return", "Notify", "AddrType", "SendMailFrom", "SendMailTo"}
+var c15Args = []string{"Hello", "Verify", "MailFrom", "RcptTo", "Body", "EnvelopeID", "Auth", "ORcptRFC822", "ORcptUTF8", "Return", "Notify", "AddrType", "SendMailFrom", "SendMailTo"}
 
 func c15Run(ctx *core.Ctx) {
 	maxLen := 3
@@ -188,6 +188,14 @@ func c15ParamFault(line string, adv int) string {
 		if !ok {
 			return fmt.Sprintf("unknown parameter %q", tok)
 		}
+		if key == "BODY" {
+			// the scripted server never offers BINARYMIME; other values are not BODY values at all
+			switch strings.ToUpper(tok) {
+			case "BODY=7BIT", "BODY=8BITMIME":
+			default:
+				return fmt.Sprintf("parameter %q: BINARYMIME is not in the EHLO reply / not a body type", tok)
+			}
+		}
 		if !c15Advertised(adv, ext) {
 			return fmt.Sprintf("parameter %q although %s is not in the most recent EHLO reply", tok, ext)
 		}
@@ -209,6 +217,9 @@ func c15Exec(ctx *core.Ctx, c c15Case) {
 	}
 	mkMail := func() *smtp.MailOptions {
 		o := &smtp.MailOptions{}
+		// the body type asked for rotates through every value; whatever the client makes of it
+		// has to stay inside what the server offered
+		o.Body = []smtp.BodyType{"", smtp.Body7Bit, smtp.Body8BitMIME, smtp.BodyBinaryMIME}[(c.AdvA+c.MailM)%4]
 		if c.MailM&1 != 0 {
 			o.Size = 4242
 		}
@@ -342,6 +353,8 @@ func c15Hostile(ctx *core.Ctx, c c15Case) {
 		err = cl.Mail(v, nil)
 	case "RcptTo":
 		err = cl.Rcpt(v, nil)
+	case "Body":
+		err = cl.Mail("s@x.test", &smtp.MailOptions{Body: smtp.BodyType(v)})
 	case "EnvelopeID":
 		err = cl.Mail("s@x.test", &smtp.MailOptions{EnvelopeID: v})
 	case "Auth":
@@ -388,6 +401,12 @@ func c15Hostile(ctx *core.Ctx, c c15Case) {
 		}
 		if strings.HasPrefix(s, "DATA") {
 			inBody = true
+		}
+		if c.Arg == "Body" && strings.HasPrefix(strings.ToUpper(s), "MAIL") {
+			if flt := c15ParamFault(strings.TrimRight(s, "\r\n"), c.AdvA); flt != "" {
+				fail("C15:parameter-not-negotiated", fmt.Sprintf("Mail with Body=%q wrote %q: %s", c.Val, s, flt))
+				return
+			}
 		}
 	}
 	if local && len(segs) > 0 && !strings.HasPrefix(c.Arg, "SendMail") {
